@@ -75,6 +75,10 @@ def pipeline(text: str, path: str) -> tuple[str, BaseException | None, bool]:
 	if path == 'memory':
 		s, name = st['mem'], '__main__'
 		s.set_source(name, text + '\n')  # what WrapSourceProvider does
+	elif path == 'mixed':
+		# an in-memory main module in the application whose source path holds the on-disk modules
+		s, name = st['disk'], '__main__'
+		s.set_source(name, text + '\n')
 	else:
 		s = st['disk']
 		st['n'] += 1
@@ -239,6 +243,11 @@ def shard(ctx: Ctx, acc: Acc) -> None:
 			try:
 				err = judge(acc, {'text': text, 'path': 'memory', 'kind': kind})
 				acc.see('input_kind', kind)
+				if err is not None and i % 3 == 0:
+					# the same refused submission once more in the same application: what the first attempt left behind must not turn the
+					# report into something else
+					acc.see('input_kind', 'resubmitted-after-refusal')
+					judge(acc, {'text': text, 'path': 'memory', 'kind': kind + '+again'})
 				if i % 4 == 0 or kind.startswith('ill-typed'):
 					judge(acc, {'text': text, 'path': 'disk', 'kind': kind})
 				# "reports it and keeps running": the real interactive process is fed the first input of every error class this shard meets
@@ -252,6 +261,14 @@ def shard(ctx: Ctx, acc: Acc) -> None:
 			except BaseException as e:  # noqa
 				acc.extra.setdefault('harness_errors', []).append(fmt_exc(e) + text[:300])
 				return
+		if ctx.shard == 1 % ctx.nshards:
+			# an on-disk module that imports __main__ (no such file): refused as an application error on every submission of the importer
+			st2 = state()
+			with open(os.path.join(st2['src_dir'], 'vf07_back.py'), 'w', encoding='utf-8') as f:
+				f.write('from __main__ import x\ny: int = 1\n')
+			for _ in range(3):
+				judge(acc, {'text': 'from vf07_back import y\nx: int = 1\n', 'path': 'mixed', 'kind': 'witness-import-of-main'})
+			judge(acc, {'text': 'a = 1\n', 'path': 'mixed', 'kind': 'witness'})
 		if ctx.shard == 0:
 			# witnesses of the two defects fixed in /repo (known_findings.json, status=fixed)
 			for w in ('def f) -> int:\n\treturn\n', 'from nowhere.module import Thing\n', 'def f(a: int) -> int:\n\tx, y = a\n\treturn x\n', 'def f() -> None:\n\tg = lambda q: g(q)\n'):
